@@ -679,8 +679,9 @@ func (p c3Prog) canonicalModes(modes string) string {
 }
 
 // c3CSETag classifies a program in which one non-trivial expression is assigned
-// twice (the shape common-subexpression elimination acts on) by what happens
-// between the two assignments; "" when there is no such pair.
+// twice — literally, or with the operands of a binary node in the other order —
+// (the shape common-subexpression elimination acts on) by where the two
+// assignments sit and what happens between them; "" when there is no such pair.
 func c3CSETag(p c3Prog) string {
 	type asg struct {
 		t, e   string
@@ -689,11 +690,22 @@ func c3CSETag(p c3Prog) string {
 		vars   map[string]bool
 		loop   int // id of the innermost enclosing loop, 0 = none
 		atomic bool
+		path   []string // the branches of if/switch statements it sits in ("<id>:B" / "<id>:C")
 	}
 	var list []asg
-	loopID := 0
-	var walk func(b []*c3S, loop int)
-	walk = func(b []*c3S, loop int) {
+	loopID, branchID := 0, 0
+	exclusive := func(a, b []string) bool {
+		for _, x := range a {
+			for _, y := range b {
+				if x != y && x[:len(x)-1] == y[:len(y)-1] {
+					return true // the two branches of one statement: at most one of them runs
+				}
+			}
+		}
+		return false
+	}
+	var walk func(b []*c3S, loop int, path []string)
+	walk = func(b []*c3S, loop int, path []string) {
 		for _, s := range b {
 			if s.K == "decl" || s.K == "set" {
 				vs := map[string]bool{}
@@ -706,18 +718,24 @@ func c3CSETag(p c3Prog) string {
 				if s.E.K == "bin" {
 					top = s.E.V
 				}
-				list = append(list, asg{t: s.T, e: s.E.String(), norm: c3OrderedOperands(s.E), top: top, vars: vs, loop: loop, atomic: s.E.K != "bin"})
+				list = append(list, asg{t: s.T, e: s.E.String(), norm: c3OrderedOperands(s.E), top: top, vars: vs, loop: loop, atomic: s.E.K != "bin", path: path})
 			}
 			inner := loop
 			if s.K == "while" || s.K == "for" {
 				loopID++
 				inner = loopID
 			}
-			walk(s.B, inner)
-			walk(s.C, inner)
+			pb, pc := path, path
+			if s.K == "if" || s.K == "switch" {
+				branchID++
+				pb = append(append([]string{}, path...), fmt.Sprintf("%d:B", branchID))
+				pc = append(append([]string{}, path...), fmt.Sprintf("%d:C", branchID))
+			}
+			walk(s.B, inner, pb)
+			walk(s.C, inner, pc)
 		}
 	}
-	walk(p, 0)
+	walk(p, 0, nil)
 	// two right-hand sides that are one expression up to the order of operands
 	for i := 0; i < len(list); i++ {
 		for j := i + 1; j < len(list) && !list[i].atomic; j++ {
@@ -744,6 +762,9 @@ func c3CSETag(p c3Prog) string {
 			}
 			if list[j].loop != 0 && list[j].loop != list[i].loop {
 				return "reused-inside-loop"
+			}
+			if exclusive(list[i].path, list[j].path) {
+				return "reused-in-the-other-branch"
 			}
 			if list[i].vars[list[i].t] {
 				return "holder-is-operand"
